@@ -23,7 +23,8 @@ Inductive ioclass := EPIPE | ECONNRESET | TIMEOUT.
 Inductive exn := XIO (c : ioclass) | XIndex | XAttr | XNotFound.
 
 (* the class name GopherExceptions.log prints: type(exception).__name__ *)
-Inductive logcls := LIO (c : ioclass) | LIndexError | LAttributeError | LFileNotFound.
+Inductive logcls := LIO (c : ioclass) | LIndexError | LAttributeError | LFileNotFound
+  | LOther.   (* any other class name seen in a real log (never produced by the model) *)
 Definition cls_of (x : exn) : logcls :=
   match x with XIO c => LIO c | XIndex => LIndexError | XAttr => LAttributeError | XNotFound => LFileNotFound end.
 
@@ -227,3 +228,19 @@ Definition server_ok (sp : sspec) : bool :=
   | (FException, true) :: _ => true
   | _ => false
   end.
+
+(* ---- resources opened without `with` (released by reference counting when the
+        handler / VFS object dies): (file, enclosing definition, callee) ---- *)
+From Coq Require Import String.
+From PG Require Import Lib.Str.
+Definition ref_released_sites : list (str * (str * str)) := [
+  (lit "handlers/ZIP.py", (lit "VFSZip.__init__", lit "self.chain.open"));      (* zipfd, closed by VFSZip.__del__ *)
+  (lit "handlers/ZIP.py", (lit "VFSZip.__init__", lit "zipfile.ZipFile"));
+  (lit "handlers/ZIP.py", (lit "VFSZip.init_cache", lit "shelve.open"));
+  (lit "handlers/ZIP.py", (lit "VFSZip.open", lit "self.zip.open"));            (* primitive: handed to a with block by the caller *)
+  (lit "handlers/base.py", (lit "VFS_Real.open", lit "open"));                  (* primitive: handed to a with block by the caller *)
+  (lit "handlers/mbox.py", (lit "MBoxFolderHandler.prepare", lit "mbox"));
+  (lit "handlers/mbox.py", (lit "MBoxMessageHandler.openmailbox", lit "mbox"));
+  (lit "handlers/mbox.py", (lit "MaildirFolderHandler.prepare", lit "Maildir"));
+  (lit "handlers/mbox.py", (lit "MaildirMessageHandler.openmailbox", lit "Maildir"))
+].
